@@ -458,11 +458,17 @@ Proof.
     rewrite sv_get_set. destruct (Z.eqb_spec i j); [lia|]. apply IH; auto.
 Qed.
 
+Lemma len_le_sum (cols : list (list Z)) : len cols <= sumZ (map (fun c => len c + 1) cols).
+Proof.
+  induction cols as [|c cs IH]; [unfold len; simpl; lia|].
+  rewrite len_cons. cbn [map sumZ fold_right]. pose proof (len_nonneg c). unfold sumZ in IH. lia.
+Qed.
+
 Definition rest_fmt (f : fmt) (m : Z) : Prop := (f = FVcf 9 /\ m = 8) \/ (f = FSam /\ m = 11).
 Definition rec_rest (f : fmt) (g : grec) : Prop :=
   g_eol g = [LF] /\
   match f with
-  | FSam => 11 <= len (g_cols g) /\ Forall (fun c : list Z => c <> []) (skipn 11 (g_cols g))
+  | FSam => 11 <= len (g_cols g) /\ Forall (fun c : list Z => c <> []) (skipn 11 (g_cols g)) /\ Forall clean (g_cols g)
   | _ => 9 <= len (g_cols g)
   end.
 
@@ -474,7 +480,7 @@ Lemma plain_field_gview f m g i : rest_fmt f m -> rec_rest f g -> 0 <= i < m ->
 Proof.
   intros [(-> & ->) | (-> & ->)] (He & Hl) Hi.
   - unfold a_field_text. destruct (Z.eqb_spec i 8); [lia|]. apply a_field_gview; [exact I|discriminate|]. unfold len in Hl. lia.
-  - unfold a_field_text. destruct (Z.eqb_spec i 11); [lia|]. destruct Hl as (Hl & _).
+  - unfold a_field_text. destruct (Z.eqb_spec i 11); [lia|]. destruct Hl as (Hl & _ & _).
     unfold a_field, gview. cbn [a_rec a_rel]. rewrite nth_firstn_lt by lia.
     unfold g_raw, raw_of. apply (col_slice (g_cols g) (Z.to_nat i) 0 [] (g_eol g)); auto. unfold len in Hl. lia.
 Qed.
@@ -487,11 +493,15 @@ Proof.
     unfold g_raw, raw_of. rewrite He, len_app. change (len [LF]) with 1.
     replace (len (intercalate [TAB] (g_cols g)) + 1 - 1) with (len (@nil Z) + len (intercalate [TAB] (g_cols g))) by (change (len (@nil Z)) with 0; lia).
     apply (rest_slice (g_cols g) 8 0 [] [LF]); auto. unfold len in Hl. lia.
-  - destruct Hl as (Hl & _). unfold a_field_text. change (11 =? 11) with true. cbv iota. unfold a_extra, gview. cbn [a_rec a_rel].
+  - destruct Hl as (Hl & _ & Hclean). unfold a_field_text. change (11 =? 11) with true. cbv iota. unfold a_extra, gview. cbn [a_rec a_rel].
     set (L := col_offsets 0 (g_cols g)). set (I := intercalate [TAB] (g_cols g)).
     assert (HL : length L = length (g_cols g)) by apply length_col_offsets.
     assert (Hraw : g_raw FSam g = I ++ [LF]) by (unfold g_raw, raw_of; rewrite He; reflexivity).
     rewrite Hraw, len_app. change (len [LF]) with 1.
+    assert (Hee : extra_end (I ++ [LF]) (len I + 1) = len I).
+    { unfold extra_end. rewrite nthZ_no_cr; [lia|]. apply Forall_app. split; [apply no_cr_intercalate; auto|].
+      constructor; [unfold LF, CR; lia|constructor]. }
+    rewrite Hee.
     assert (Hl' : (11 <= length (g_cols g))%nat) by (unfold len in Hl; lia).
     assert (Hlast : last (firstn 11 L) (0, 0) = nth 10 L (0, 0)).
     { rewrite (last_nth (firstn 11 L)). rewrite firstn_length.
@@ -506,7 +516,7 @@ Proof.
       { rewrite (last_nth L). f_equal. unfold len in E11. lia. }
       rewrite Hn10. pose proof (col_offsets_last_end (g_cols g) 0 Hne) as Hend. fold L I in Hend.
       replace (fst (last L (0, 0)) + snd (last L (0, 0)) + 1) with (len I + 1) by lia.
-      replace (len I + 1 - (len I + 1) - 1) with (-1) by lia. change (Z.max (-1) 0) with 0.
+      replace (len I - (len I + 1)) with (-1) by lia. change (Z.max (-1) 0) with 0.
       rewrite slice_empty by lia. rewrite skipn_all2 by (unfold len in E11; lia). reflexivity.
     + (* tag columns: from the start of column 11 to the end of the text *)
       assert (H12 : (11 < length (g_cols g))%nat) by (unfold len in *; lia).
@@ -515,7 +525,7 @@ Proof.
       assert (Hin : In (nth 11 L (0, 0)) L) by (apply nth_In; lia).
       rewrite Forall_forall in Hok. destruct (Hok _ Hin) as (A & B & C).
       set (st := fst (nth 11 L (0, 0))) in *.
-      replace (Z.max (len I + 1 - st - 1) 0) with (len I - st) by lia.
+      replace (Z.max (len I - st) 0) with (len I - st) by lia.
       replace (st + (len I - st)) with (len (@nil Z) + len I) by (change (len (@nil Z)) with 0; lia).
       apply (rest_slice (g_cols g) 11 0 [] [LF]); auto.
 Qed.
@@ -546,7 +556,7 @@ Proof.
   - unfold join_row, raw_of. rewrite intercalate_flat; [reflexivity|].
     intro Q. assert (length (skipn (Z.to_nat 8) (g_cols g)) = 0%nat) by (rewrite Q; reflexivity).
     rewrite skipn_length in H. unfold len in Hl. lia.
-  - destruct Hl as (Hl & Hne). unfold join_row, raw_of. rewrite (Hv eq_refl). rewrite drop_empty_last_snoc'.
+  - destruct Hl as (Hl & Hne & _). unfold join_row, raw_of. rewrite (Hv eq_refl). rewrite drop_empty_last_snoc'.
     change (Z.to_nat 11) with 11%nat. remember (skipn 11 (g_cols g)) as T eqn:ET.
     destruct T as [|c T'].
     + simpl intercalate. rewrite app_nil_r. reflexivity.
@@ -572,8 +582,14 @@ Proof.
   { rewrite V0. destruct Hrf as [(-> & ->) | (-> & ->)]; simpl.
     - intros _. unfold width_gt. rewrite Forall_map. eapply Forall_impl; [|exact Hrecs]. intros g (_ & Hl). simpl.
       rewrite length_col_offsets. unfold len in Hl. lia.
-    - unfold width_gt. rewrite Forall_map. eapply Forall_impl; [|exact Hrecs]. intros g (_ & Hl & _).
-      unfold gview; cbn [a_rel]. rewrite firstn_length, length_col_offsets. unfold len in Hl. lia. }
+    - unfold width_gt. rewrite !Forall_map. split.
+      + eapply Forall_impl; [|exact Hrecs]. intros g (_ & Hl & _).
+        unfold gview; cbn [a_rel]. rewrite firstn_length, length_col_offsets. unfold len in Hl. lia.
+      + eapply Forall_impl; [|exact Hrecs]. intros g (He & Hl & _).
+        unfold gview; cbn [a_rec]. unfold g_raw, raw_of. rewrite He, len_app. change (len [LF]) with 1.
+        assert (Hne : g_cols g <> []) by (intro Q; rewrite Q in Hl; change (len (@nil (list Z))) with 0 in Hl; lia).
+        pose proof (len_intercalate (g_cols g) Hne) as HI.
+        pose proof (len_le_sum (g_cols g)). lia. }
   unfold model_out_v in Hm. rewrite Hread in Hm.
   destruct (run f (SLazy x0 []) p) as [st|] eqn:Hrun; try discriminate.
   destruct (spec_rows_run f m recs x0 Hf Hcid I0 V0 Hnf p st Hfo Hrun) as (Rows & Gnf & Ginc).
@@ -624,8 +640,8 @@ Proof.
   apply (rest_program_end_to_end v FSam 11 recs x0 p out); auto.
   - right. split; reflexivity.
   - simpl. rewrite Hx. reflexivity.
-  - rewrite Forall_forall in *. intros r Hr. destruct (H r Hr) as ((H11 & _) & He). split; [exact He|].
-    split; [unfold len; lia|apply Htags; auto].
+  - rewrite Forall_forall in *. intros r Hr. destruct (H r Hr) as ((H11 & Hcl) & He). split; [exact He|].
+    split; [unfold len; lia|]. split; [apply Htags; auto|exact Hcl].
 Qed.
 
 (* VCFBuffer2 (8 plain fields + FORMAT/genotype columns kept as the rest of the line), LF *)
